@@ -520,6 +520,11 @@ func runC19(r *core.Run) {
 
 	core.Clause(r, "degenerate", core.Opts{Serial: true, Rule: "chain of depth n, star with n children, comb (chain with a leaf at every level), combs whose side children are inner nodes (met before / after the deep descent, at every level on the way back up), and roots whose children are every sequence of up to 3 of {chain of n nodes, inner node, leaf} with at least one chain (deep dip, back to the root, further subtrees), for the listed n; non-trivial = all"},
 		func(emit func(c19Big) bool) {
+			for n := 1; n <= 300; n++ { // every depth / width: a stack or queue preallocated for some size is met at its edge
+				emit(c19Big{"chain", n})
+				emit(c19Big{"star", n})
+				emit(c19Big{"comb", n})
+			}
 			for _, n := range []int{1000, 100000, 1000000} {
 				emit(c19Big{"chain", n})
 			}
